@@ -6,7 +6,8 @@ file-access sink takes a path whose data flow from the ``template`` parameter pa
 with TemplateNotFound and drops empty / "." segments; joins use posixpath.join (a later
 absolute segment cannot reset the path because separators were rejected); Choice and Prefix
 loaders: get_source and load are siblings (same iteration order, same caught class, same
-final raise).  Not decided: the behaviour of the underlying file system (symlinks).
+final raise).  Also: Dict / Function loaders raise TemplateNotFound exactly for `not in` / `is None` (an empty source is a hit).  
+Not decided: the behaviour of the underlying file system (symlinks).
 """
 
 from __future__ import annotations
